@@ -191,7 +191,7 @@ def run(cx):
             r.check(guarded, f"{fnq}/{call_name(n)}({norm(n.args[0]) if n.args else ''})-unguarded", (pm, n), f"`{stmt_key(n)}` is not inside a try/except Exception: ZeroDivisionError/OverflowError/TypeError from constant folding would escape as an internal error", sample=f"{fnq}: {call_name(n)}({norm(n.args[0]) if n.args else ''})")
 
     # ---- C11-MIXED --------------------------------------------------------------------------
-    r = cx.rule("C11-MIXED", "a value returned by an argument resolver typed Union[number, str] (a number when the argument folds, C++ text otherwise) is only compared or used in arithmetic under an isinstance guard: `0 <= value <= 7` on the text form would raise TypeError, an internal error, for every non-literal argument", floor=2)
+    r = cx.rule("C11-MIXED", "a value returned by an argument resolver typed Union[number, str] (a number when the argument folds, C++ text otherwise) is only compared or used in arithmetic under an isinstance guard: `0 <= value <= 7` on the text form would raise TypeError, an internal error, for every non-literal argument; the same for IR fields annotated Union[number, str]", floor=0)
     mixed = set()
     for q, fn in pm.funcs.items():
         if fn.returns is not None:
@@ -239,6 +239,101 @@ def run(cx):
                     if isinstance(anc, ast.FunctionDef):
                         break
                 r.check(guard, f"{q}/numeric-use-of-mixed[{v}]", (pm, n), f"`{norm(n)}`: {v} comes from {call_name(mv[v].value)}() and is C++ text whenever the argument is not a literal; comparing/adding it without an isinstance guard raises TypeError for such calls", sample=f"{q}: {norm(n)[:50]}")
+
+    # the same discipline for IR fields annotated Union[number, str] wherever they are read as `node.f` / `self.f`
+    # (dataclass __post_init__ hooks, emitter arms): expected count on the pinned tree is zero, so a control keeps the
+    # matcher honest
+    am_, em_ = mod("transpile/ast.py"), mod("transpile/emitter.py")
+    mixed_fields = set()
+    for cn_, c_ in am_.classes.items():
+        for st_ in c_.body:
+            if isinstance(st_, ast.AnnAssign) and isinstance(st_.target, ast.Name):
+                t_ = norm(st_.annotation)
+                if "str" in t_ and any(x in t_ for x in ("int", "float", "bool")) and ("Union" in t_ or "|" in t_):
+                    mixed_fields.add(st_.target.id)
+    if len(mixed_fields) < 30:
+        raise AnalysisError(f"only {len(mixed_fields)} Union[number, str] IR fields found (confirmed: 58)")
+
+    def helper_guard_excludes_str(m_, cond_node, truth, operand_text):
+        """`not f(a, b)` / `f(a, b)` where f is a module-level pure function: evaluated on every assignment of {number, text} to
+        its arguments; the guard protects `operand` if f(...) == truth never holds while the operand is text"""
+        neg = False
+        c_ = cond_node
+        while isinstance(c_, ast.UnaryOp) and isinstance(c_.op, ast.Not):
+            neg = not neg
+            c_ = c_.operand
+        if not (isinstance(c_, ast.Call) and isinstance(c_.func, ast.Name) and c_.func.id in m_.funcs and not c_.keywords):
+            return False
+        args = [norm(a) for a in c_.args]
+        if operand_text not in args:
+            return False
+        import itertools
+        f_ = m_.funcs[c_.func.id]
+        for combo in itertools.product((1.5, "H_x"), repeat=len(args)):
+            if not isinstance(combo[args.index(operand_text)], str):
+                continue
+            try:
+                out = dl.Interp(m_).call(f_, list(combo))
+            except dl.Unsupported:
+                return False
+            if out.kind != "return":
+                return False
+            val = bool(out.value) != neg
+            if val == truth:
+                return False        # the guarded block is reachable with a text operand
+        return True
+
+    n_attr = 0
+    for m_ in (am_, em_, pm):
+        for q, fn in m_.funcs.items():
+            for n in walk_local(fn, include_self=False):
+                risky = None
+                if isinstance(n, ast.Compare) and any(isinstance(o, (ast.Lt, ast.LtE, ast.Gt, ast.GtE)) for o in n.ops):
+                    risky = [n.left] + list(n.comparators)
+                elif isinstance(n, ast.BinOp) and isinstance(n.op, (ast.Add, ast.Sub, ast.Mult, ast.Div, ast.Mod, ast.FloorDiv, ast.Pow)):
+                    risky = [n.left, n.right]
+                if not risky:
+                    continue
+                for x in risky:
+                    if not (isinstance(x, ast.Attribute) and isinstance(x.value, ast.Name) and x.value.id in ("node", "self", "decl") and x.attr in mixed_fields):
+                        continue
+                    n_attr += 1
+                    v = norm(x)
+                    guard = False
+                    child = n
+                    conds_ = []
+                    for anc in m_.ancestors(n):
+                        if isinstance(anc, ast.If) and (any(child is b for b in anc.body) or any(child is b for b in anc.orelse)):
+                            conds_.append((anc.test, any(child is b for b in anc.body)))
+                        if isinstance(anc, ast.BoolOp) and isinstance(anc.op, ast.And):
+                            idx = next((i for i, val in enumerate(anc.values) if val is child), None)
+                            if idx is not None:
+                                conds_ += [(e, True) for e in anc.values[:idx]]
+                        child = anc
+                        if isinstance(anc, ast.FunctionDef):
+                            break
+                    from ..flow import split_and
+                    for test, tv in conds_:
+                        for atom, t_ in split_and(test, tv):
+                            a_txt = norm(atom)
+                            if a_txt.startswith(f"isinstance({v},") and "str" not in a_txt and t_:
+                                guard = True
+                            elif a_txt.startswith(f"isinstance({v}, str") and not t_:
+                                guard = True
+                            elif helper_guard_excludes_str(m_, atom, t_, v):
+                                guard = True
+                    r.check(guard, f"{q}/numeric-use-of-mixed-field[{v}]", (m_, n), f"`{norm(n)}`: {v} is annotated Union[number, str] and holds C++ text whenever the argument is not a literal; comparing it without a guard that excludes the text form raises TypeError (an internal error) for such calls", sample=f"{q}: {norm(n)[:50]}")
+    cx.extra["mixed_field_uses"] = n_attr
+    # control: the helper-guard evaluator must accept an any()-style guard and refuse an all()-style one
+    ctl = ast.parse("def g_any(*v):\n    return any(isinstance(x, str) for x in v)\ndef g_all(*v):\n    return all(isinstance(x, str) for x in v)\n")
+
+    class _Ctl:
+        funcs = {f.name: f for f in ctl.body}
+        classes, consts, imports, rel = {}, {}, {}, "<control>"
+    ok_any = helper_guard_excludes_str(_Ctl, ast.parse("not g_any(a, b)", mode="eval").body, True, "a")
+    ok_all = helper_guard_excludes_str(_Ctl, ast.parse("not g_all(a, b)", mode="eval").body, True, "a")
+    if not ok_any or ok_all:
+        raise AnalysisError("the helper-guard evaluation lost its control (any()-guard must protect, all()-guard must not)")
 
     # ---- C11-CONVERT -------------------------------------------------------------------------
     r = cx.rule("C11-CONVERT", "number-to-number conversions of folded constants cannot raise OverflowError: _eval_const hands out only representable values (finite floats, ints within 64 bits, recursively in lists) and every unguarded int(x)/float(x) on a number takes its operand from _eval_const or from a value passed through _ensure_representable; tuple assignment checks its arity before indexing", floor=12)
@@ -346,7 +441,12 @@ def run(cx):
             if isinstance(n, ast.If) and any(isinstance(x, ast.Raise) for x in ast.walk(n)):
                 atoms = [norm(a_) for a_, t_ in split_and(n.test, True) if t_]
                 if any(f"ast.{opname}" in a_ and ("opcls is" in a_ or "opcls in" in a_ or "opcls ==" in a_) for a_ in atoms):
-                    guarded = True
+                    # the magnitude test must come before the operator is applied (a bound on the *result* is too late:
+                    # 7 ** 200000000 has been computed by then)
+                    apps = [c for c in ast.walk(ab) if isinstance(c, ast.Call) and isinstance(c.func, ast.Subscript) and norm(c.func.slice) == "opcls"]
+                    first_app = min([(c.lineno, c.col_offset) for c in apps] or [(10 ** 9, 0)])
+                    if (n.lineno, n.col_offset) < first_app:
+                        guarded = True
         r.check(guarded, f"_eval_const._apply_bin[{opname}]-unbounded", (pm, keys[opname]), f"ast.{opname} is folded with operator.{fn_name} on unbounded literal operands (e.g. sleep(10**10**8) never returns)")
 
     # ---- C11-STATE ---------------------------------------------------------------------------
